@@ -82,6 +82,11 @@ Definition run_inputs (e : sexp) : sexp :=
         | Some cl => L (map (field_default_status E) (effective (c_fields cl)))
         | None => sErr "no such class"
         end)
+  | L [A "canon"; sch; t; j] =>
+      match schema_of_sexp sch, gtype_of_sexp t, json_of_sexp j with
+      | Some s, Some t', Some j' => sB (canon s j' t')
+      | _, _, _ => sErr "canon args"
+      end
   | L [A "member_name"; A v] => A (member_name v)
   | L [A "tables"] =>
       (* the constants the model hard-wires, printed so that the harness can compare them with
